@@ -8,6 +8,7 @@
 import PySpikeVerif.Proofs.ApiLaws
 import PySpikeVerif.Proofs.AddPwc
 import PySpikeVerif.Proofs.AddPwl
+import PySpikeVerif.Proofs.MultiLaws
 
 namespace PySpike.C06
 open PySpike
@@ -80,5 +81,35 @@ theorem matrix_entries_are_bivariate (dist : Train → Train → Option Q) (diag
     (hij : i < j) (hj : j < idx.length) :
     dist (tr L (idx.getD i 0)) (tr L (idx.getD j 0)) = some ((M.getD i []).getD j 0) :=
   genericDistanceMatrix_upper dist diag sign idx L M h i j hij hj
+
+/-! ### Proofs/MultiLaws.lean (work package B5) -/
+
+/-- the multivariate ISI profile is at every time the arithmetic mean of the N(N-1)/2 bivariate
+    profiles (right limits; valid trains on a common interval, any keyword record) -/
+theorem isi_multi_profile_is_mean (kw : Kw) (L : List Train) (ts te t : Q)
+    (hv : B5_ValidList ts te L) (h2 : 2 ≤ L.length) (ht0 : ts ≤ t) (ht1 : t < te) :
+    (isiProfileMulti kw none L).evalR t =
+      some (qsum ((pairsOf (List.range L.length)).map fun p =>
+          ((isiProfileBi kw (tr L p.1) (tr L p.2)).evalR t).getD 0)
+        / ((pairsOf (List.range L.length)).length : Q)) :=
+  isiProfileMulti_evalR_eq_mean_anyRecon kw L ts te t hv h2 ht0 ht1
+
+/-- the multivariate distance does not depend on the order of the trains in the list: for any
+    symmetric bivariate distance … -/
+theorem distance_order_independent (d : Train → Train → Option Q) {L' L : List Train}
+    (hp : L'.Perm L) (hs : ∀ a ∈ L, ∀ b ∈ L, d a b = d b a) :
+    genericDistanceMulti d (List.range L'.length) L' = genericDistanceMulti d (List.range L.length) L :=
+  genericDistanceMulti_perm d hp hs
+
+/-- … in particular the ISI distance, with the default reconciliation and no assumption on the
+    trains at all … -/
+theorem isi_distance_order_independent (kw : Kw) {L' L : List Train} (hr : kw.recon = true)
+    (hp : L'.Perm L) : isiDistanceMulti kw none L' = isiDistanceMulti kw none L :=
+  isiDistanceMulti_perm_recon kw hr hp
+
+/-- … and SPIKE-Sync, given symmetry of the pair values (Properties/C04-B2: `coincProfile_swap`) -/
+theorem sync_order_independent_partial (kw : Kw) {L' L : List Train} (hr : kw.recon = false)
+    (hs : ∀ a ∈ L, ∀ b ∈ L, syncValues kw a b = syncValues kw b a) (hp : L'.Perm L) :
+    spikeSyncMulti kw none L' = spikeSyncMulti kw none L := spikeSyncMulti_perm kw hr hs hp
 
 end PySpike.C06
